@@ -1,12 +1,12 @@
 (* Revisions.v — the two revisions of the modelled code that the theorems talk about:
-   rv_fixed  = /repo with all seven fix: commits (every flag on),
+   rv_fixed  = /repo with all eight fix: commits (every flag on),
    rv_pinned = the originally pinned tree (every flag off).  Definitions only. *)
 From Agdb Require Import Bytes DbValue Graph DbModel.
 
 Definition rv_fixed : revision :=
   {| fix_rollback_replace := true; fix_alias_steal_undo := true; fix_alias_nodes_only := true;
-     fix_strict_order := true; fix_slice_clamp := true; fix_edge_origin := true; fix_visited_chain := true |}.
+     fix_strict_order := true; fix_slice_clamp := true; fix_edge_origin := true; fix_visited_chain := true; fix_nodes_ids_alias := true |}.
 
 Definition rv_pinned : revision :=
   {| fix_rollback_replace := false; fix_alias_steal_undo := false; fix_alias_nodes_only := false;
-     fix_strict_order := false; fix_slice_clamp := false; fix_edge_origin := false; fix_visited_chain := false |}.
+     fix_strict_order := false; fix_slice_clamp := false; fix_edge_origin := false; fix_visited_chain := false; fix_nodes_ids_alias := false |}.
